@@ -364,8 +364,80 @@ class Translator:
             [{"i": i, "module": c.__module__, "qualname": c.__qualname__} for i, c in enumerate(self.classes)]))
 
 
+def canonical(tr: "Translator") -> dict:
+    """An index-free description of every class (class references by module:qualname), used to
+    compare two trees (e.g. generator output vs shipped schema)."""
+    def cref(c):
+        return f"{c.__module__}:{c.__qualname__}"
+
+    def ann(t):
+        if t is type(None) or t is None:
+            return "None"
+        if t is Ellipsis:
+            return "..."
+        origin = typing.get_origin(t)
+        if origin is not None:
+            name = {types.UnionType: "union", typing.Union: "Union", tuple: "tuple"}.get(origin, repr(origin))
+            return [name] + [ann(a) for a in typing.get_args(t)]
+        if isinstance(t, type):
+            if dataclasses.is_dataclass(t):
+                return {"class": cref(t)}
+            return qual(t)
+        return repr(t)[:60]
+
+    def val(v):
+        if dataclasses.is_dataclass(v) and not isinstance(v, type):
+            return {"instance_of": cref(type(v)), "fields": [val(getattr(v, f.name)) for f in dataclasses.fields(v)]}
+        if isinstance(v, tuple):
+            return [val(x) for x in v]
+        return tr.value(v)
+
+    out = {}
+    for cls in tr.classes:
+        if not hasattr(cls, "__flexible__"):
+            continue
+        hdr = getattr(cls, "__header_schema__", None)
+        p = cls.__dataclass_params__
+        fields = []
+        hints = None
+        for f in dataclasses.fields(cls):
+            ft = f.type
+            if isinstance(ft, str):
+                hints = hints or typing.get_type_hints(cls)
+                ft = hints[f.name]
+            fields.append({"name": f.name, "ann": ann(ft), "metadata": {k: (v if isinstance(v, (str, int, bool)) else repr(v)) for k, v in f.metadata.items()},
+                           "default": None if f.default is dataclasses.MISSING else val(f.default),
+                           "kw_only": f.kw_only})
+        et = getattr(cls, "__type__", None)
+        out[cref(cls)] = {
+            "type": getattr(et, "name", None), "version": getattr(cls, "__version__", None),
+            "flexible": getattr(cls, "__flexible__", None), "api_key": getattr(cls, "__api_key__", None),
+            "header": None if hdr is None else cref(hdr),
+            "params": {"frozen": p.frozen, "eq": p.eq, "order": p.order, "unsafe_hash": p.unsafe_hash,
+                       "slots": "__slots__" in cls.__dict__}, "fields": fields}
+    from kio.schema import index as sidx
+    from kio.schema.errors import ErrorCode
+    return {"classes": out,
+            "api_key_map": {str(k): v for k, v in sidx.api_key_map.items()},
+            "schema_name_map": {n: {str(v): {et.name: p for et, p in tm.items()} for v, tm in vm.items()} for n, vm in sidx.schema_name_map.items()},
+            "error_codes": [[int(m.value), m.name, bool(m.retriable)] for m in ErrorCode]}
+
+
 def main():
     out = Path(sys.argv[1])
+    if len(sys.argv) > 2 and sys.argv[2] == "--canonical":
+        try:
+            tr = Translator()
+            tr.walk()
+            out.parent.mkdir(parents=True, exist_ok=True)
+            out.write_text(json.dumps(canonical(tr), sort_keys=True))
+        except Exception as e:  # noqa
+            import traceback
+
+            traceback.print_exc()
+            print(f"TRANSLATOR-ABORT: {type(e).__name__}: {e}")
+            sys.exit(3)
+        return
     try:
         Translator().emit(out)
     except Unrepresentable as e:
